@@ -54,6 +54,10 @@ QUICK = [
     T('B9', 'Lb', 3, [add(app(t3(0, 1, 2), var(1))), add(app(s3(0, 2, 1), var(1))), add(m3(0, 1, 2)), union(m3(0, 1, 2), app(t3(0, 1, 2), var(1))), add(t3(0, 2, 1)), union(t3(0, 1, 2), t3(0, 2, 1)),
                       add(s3(0, 1, 2)), union(t3(0, 1, 2), s3(0, 1, 2)), add(app(t3(0, 1, 2), var(2)))],
       distinct=[[0, 1, 2]], note='two parents congruent only modulo a child symmetry that is learned later (4-step history)'),
+    T('B10', 'Lb', 2, [add(k(0, 1)), add(k(1, 0)), union(k(0, 1), k(1, 0)), add(lam(0, k(0, 1))), readd(lam(0, k(1, 0))), add(lam(1, k(0, 1)))],
+      note='binder directly over a class with a swap symmetry, the bound slot in a symmetric position: both orientations are one term'),
+    T('B11', 'Lb', 5, [add(app(k(0, 1), var(2))), add(app(k(0, 1), var(3))), union(app(k(0, 1), var(2)), app(k(0, 1), var(3))), add(k(0, 4)), union(k(0, 1), k(0, 4)), add(app(k(0, 4), var(2)))],
+      distinct=[[0, 1, 2, 3, 4]], note='a parent slot becomes redundant by an explicit union while the child keeps it; afterwards a different child loses a slot'),
 ]
 
 
@@ -61,7 +65,9 @@ def reorder(t, mode):
     """a reordering of the same set of insertions and equations: 'flip' = every union with its sides exchanged;
     'rev' = all insertions first in reverse order, then the unions in reverse order with sides exchanged"""
     adds = [op for op in t.ops if op[0] == 'add']; unions = [op for op in t.ops if op[0] == 'union']
-    if mode == 'flip': ops = [('union', op[2], op[1]) if op[0] == 'union' else op for op in t.ops if op[0] != 'readd']
+    if mode == 'uflip':      # the unions in the opposite order (insertions stay before their first use)
+        ops = adds + list(reversed(unions))
+    elif mode == 'flip': ops = [('union', op[2], op[1]) if op[0] == 'union' else op for op in t.ops if op[0] != 'readd']
     else: ops = list(reversed(adds)) + [('union', op[2], op[1]) for op in reversed(unions)]
     return T(t.name + '~' + mode, t.lang, t.nnames, ops, t.analysis, t.distinct, 'reordering (%s) of %s' % (mode, t.name), group=t.name)
 
@@ -77,6 +83,8 @@ def _with_groups(base, which):
 RW = [
     T('M1', 'Lf', 6, [add(f(0, 1)), add(f(2, 3)), union(f(0, 1), f(2, 3)), ematch(f(4, 5))], late={4: 3, 5: 3},
       note='single-pattern matcher (f $p $q) on every final state of T1, pattern slot names free'),
+    T('M3', 'Lf', 5, [add(h(0, 1, 2)), ematch(h(3, 4, 3)), ematch(h(3, 3, 4))], distinct=[[0, 1, 2]], late={3: 1, 4: 1},
+      note='non-linear pattern (h $x $y $x) against three distinct slots: must not match under any naming'),
     T('M2', 'Lb', 4, [add(app(var(0), var(1))), add(lam(0, app(var(0), var(1)))), ematch(app('?a', '?b')), ematch(app('?a', '?a')), ematch(lam(2, '?b')), ematch(app(var(3), '?b'))], late={2: 4, 3: 5},
       note='patterns with variables, a repeated variable, a binder, a nested leaf'),
     T('R1', 'Lf', 6, [add(f(0, 1)), add(f(2, 3)), union(f(0, 1), f(2, 3)), rewrite(rule('f-to-g', f(4, 5), g(5, 4))), probe(g(1, 0)), probe(g(3, 2)), rewrite(rule('f-to-g', f(4, 5), g(5, 4)))], late={4: 3, 5: 3},
@@ -120,6 +128,9 @@ AN = (_an('A1', [add(app(var(0), var(1))), add(var(2)), union(app(var(0), var(1)
 AN = AN + _an('A4', [add(u(u(app(var(0), var(0))))), add(var(1)), union(var(1), app(var(0), var(0)))], 'a lone leaf is merged into a class with the same slot count that has parents: the SURVIVING class improves', nn=2)
 for _t in AN: _t.light = True
 QUICK = QUICK + RW + EX + AN
-QUICK = _with_groups(QUICK, {'T1': ('rev',), 'T3': ('rev',), 'T4': ('flip',), 'B2': ('flip',), 'B5': ('rev',), 'TH2': ('rev',)})
+QUICK = _with_groups(QUICK, {'T1': ('rev',), 'T3': ('rev',), 'T4': ('flip',), 'B2': ('flip',), 'B5': ('rev',), 'TH2': ('rev',), 'B11': ('uflip',)})
+
+for _t in QUICK:
+    if _t.name.startswith('B11'): _t.light = True
 
 THOROUGH = []
